@@ -19,6 +19,7 @@ RULE = (
     'subtracted from every step, first frame kept).  Non-trivial = at least two species, reference set a strict '
     'subset of the atoms; distinct = SHA-1 of (walk, species, argument form).'
 )
+RULE += ' Added in rounds 6-10: a further drift() query for another reference set on the same trajectory; nearly static crystals with a common drift of 1e-10..1e-8 per frame; collections with repeated names; a non-reference atom with NaN coordinates.'
 ASSUMPTIONS = [
     'steps (including the injected drift) stay below 0.45 cell so that minimum-image steps are the true steps',
     'tolerances: residual drift 1e-12, positions 1e-9 (circular)',
